@@ -106,7 +106,13 @@ fn tsec(t: Option<SystemTime>) -> String {
 #[folder = "/var/tmp/verif-embed"]
 struct DynEmbed;
 
+#[cfg(feature = "embed")]
+#[derive(rust_embed::RustEmbed, Debug)]
+#[folder = "/var/tmp/verif-embed2"]
+struct DynEmbed2;
+
 const EMBED_DIR: &str = "/var/tmp/verif-embed";
+const EMBED_DIR2: &str = "/var/tmp/verif-embed2";
 
 enum Handle {
     W(Box<dyn SeekAndWrite + Send>),
@@ -353,6 +359,8 @@ fn exec(st: &mut St, t: &[&str]) -> String {
                 }
                 #[cfg(feature = "embed")]
                 "embed" => VfsPath::new(EmbeddedFS::<DynEmbed>::new()),
+                #[cfg(feature = "embed")]
+                "embed2" => VfsPath::new(EmbeddedFS::<DynEmbed2>::new()),
                 "alt" => VfsPath::new(AltrootFS::new(p(st, t[3]))),
                 "ovl" => {
                     let layers: Vec<VfsPath> = t[3..].iter().map(|k| p(st, k)).collect();
@@ -371,9 +379,9 @@ fn exec(st: &mut St, t: &[&str]) -> String {
             std::fs::write(dir.join(std::ffi::OsStr::from_bytes(&name)), b"x").unwrap();
             "ok".into()
         }
-        "embedfile" => {
+        "embedfile" | "embedfile2" => {
             let rel = String::from_utf8(unhex(t[1])).unwrap();
-            let full = std::path::Path::new(EMBED_DIR).join(rel);
+            let full = std::path::Path::new(if t[0] == "embedfile" { EMBED_DIR } else { EMBED_DIR2 }).join(rel);
             std::fs::create_dir_all(full.parent().unwrap()).unwrap();
             std::fs::write(full, unhex(t[2])).unwrap();
             "ok".into()
@@ -559,6 +567,8 @@ fn main() {
     if cfg!(feature = "embed") {
         let _ = std::fs::remove_dir_all(EMBED_DIR);
         let _ = std::fs::create_dir_all(EMBED_DIR);
+        let _ = std::fs::remove_dir_all(EMBED_DIR2);
+        let _ = std::fs::create_dir_all(EMBED_DIR2);
     }
     let mut out = String::new();
     let all_lines: Vec<&str> = text.lines().collect();
@@ -598,6 +608,8 @@ fn main() {
             if cfg!(feature = "embed") {
                 let _ = std::fs::remove_dir_all(EMBED_DIR);
                 let _ = std::fs::create_dir_all(EMBED_DIR);
+                let _ = std::fs::remove_dir_all(EMBED_DIR2);
+                let _ = std::fs::create_dir_all(EMBED_DIR2);
             }
             st.handles.clear(); st.walks.clear(); st.paths.clear(); st.ctls.clear();
             for d in st.tmp.drain(..) { let _ = std::fs::remove_dir_all(d); }
